@@ -1068,6 +1068,9 @@ class Filterbank(ABC):
         str
             Name of output file.
         """
+        if nsub < 1 or self.header.nchans % nsub != 0:
+            msg = f"Number of channels must be divisible by nsub. Got {nsub}"
+            raise ValueError(msg)
         subfactor = self.header.nchans // nsub
         chan_delays = self.header.get_dmdelays(dm)
         max_delay = int(chan_delays.max())
